@@ -55,6 +55,38 @@ def byte_mutants(rng, texts, n):
     return out
 
 
+def size_family(rng, tier):
+    """valid descriptions and raw texts whose SIZE is unusual: very wide rules, very long names, very many states / rules, very long lines
+    (a parser or loader must neither crash nor hang on them, and valid ones must round-trip)"""
+    out = []
+
+    def rt(i, name, syms, states, fin, trans):
+        lines = ["Ops " + " ".join("%s:%d" % (s[0], s[1]) for s in syms), "Automaton " + name, "States " + " ".join(states),
+                 "Final States " + " ".join(fin), "Transitions"]
+        for t in trans:
+            lines.append((t[0] if not t[1] else "%s(%s)" % (t[0], ",".join(t[1]))) + " -> " + t[2])
+        out.append({"id": ["size", i], "op": "timbuk", "mode": "rt", "variant": 0, "src": "size-family", "tmo": 120000,
+                    "desc": {"name": name, "syms": [[s[0], s[1]] for s in syms], "states": states, "fin": fin, "trans": trans},
+                    "text": "\n".join(lines) + "\n"})
+    widths = [3000, 12000, 30000] if tier == "thorough" else [3000, 12000]
+    for i, w in enumerate(widths):
+        rt(i, "A", [["a", 0], ["f", w]], ["q0", "q1"], ["q1"], [["a", [], "q0"], ["f", ["q0"] * w, "q1"]])
+    for i, n in enumerate([20000, 80000] + ([400000] if tier == "thorough" else [])):
+        big = "q" * n
+        rt(10 + i, "A", [["a", 0], ["g", 1]], [big, "p"], [big], [["a", [], "p"], ["g", ["p"], big], ["g", [big], big]])
+        rt(20 + i, "A", [["s" * n, 0], ["g", 1]], ["p", "q"], ["q"], [["s" * n, [], "p"], ["g", ["p"], "q"]])
+    m = 4000
+    states = ["s%d" % k for k in range(m)]
+    rt(30, "A", [["a", 0], ["g", 1]], states, [states[-1]], [["a", [], states[0]]] + [["g", [states[k]], states[k + 1]] for k in range(m - 1)])
+    for i, n in enumerate([100000, 600000]):
+        out.append({"id": ["size", 40 + i], "op": "timbuk", "mode": "bad", "src": "size-family", "tmo": 120000, "text": "x" * n})
+        out.append({"id": ["size", 50 + i], "op": "timbuk", "mode": "bad", "src": "size-family", "tmo": 120000,
+                    "text": "Ops a:0\nAutomaton A\nStates q\nFinal States q\nTransitions\n" + "f(" + "q," * n + "q -> q\n"})
+        out.append({"id": ["size", 60 + i], "op": "timbuk", "mode": "bad", "src": "size-family", "tmo": 120000,
+                    "text": "Ops " + "a:0 " * (n // 4) + "\nAutomaton A\nStates " + "q " * (n // 2) + "\nFinal States q\nTransitions\na -> q\n"})
+    return out
+
+
 def check_C13(tier, seed, res, replay=None):
     res.level = "exploration"
     rd = vlib.rundir("C13", tier)
@@ -72,6 +104,7 @@ def check_C13(tier, seed, res, replay=None):
     cases += bad
     valid_texts = [c["text"] for c in cases if c["mode"] == "rt"][:400] or ["Ops a:0\nAutomaton A\nStates q\nFinal States q\nTransitions\na -> q\n"]
     cases += byte_mutants(rng, valid_texts, 60000 if tier == "thorough" else 8000)
+    cases += size_family(rng, tier)
 
     def nt(c):
         if c["mode"] == "rt":
@@ -79,4 +112,4 @@ def check_C13(tier, seed, res, replay=None):
         return True
     res.count_cases(cases, nt)
     res.add_samples([c for c in cases if c["mode"] == "rt" and nt(c)][:2] + [c for c in cases if c["mode"] == "bad"][:2])
-    run_events(res, rd, "c13", cases, "TraceTimbuk.tla", timeout_ms=5000)
+    run_events(res, rd, "c13", cases, "TraceTimbuk.tla", timeout_ms=5000, heap="6g")
